@@ -1,11 +1,11 @@
 """C02 — serialization emits valid JSON denoting the tree; parse(serialize(T)) = T.
 
 Script line:  ser <tree in jvtext> <flags>,<flags>,... [<op>;<op>;...]
-The optional history (see harness/drv_ser.c: C K R<flags> D I U B T Z W Y G A X F<who><scope>) is applied to the tree through
+The optional history (see harness/drv_ser.c: C K R<flags> D I U B T Z W Y G A X F<who><scope> P) is applied to the tree through
 the public API before it is serialized ("every tree built through the API": deep copies, in-place
 setters, parser-built trees, opaque userdata, serializer resets, replaced and deleted children; F: the option
 formats of json_c_set_serialization_double_format, global or thread-local, set from the serializing thread or
-from helper threads); with a history the observation starts with
+from helper threads; P: custom serializers that build a known piece of text with the public print-buffer API); with a history the observation starts with
 "R <text hex>" per R operation, "tree <typed dump>" and, after K, "aside <typed dump>".
 Observation per flag value (" | " between them):
     <text hex> <reported length> <equal(orig,reparsed)> <typed dump of reparsed> <re-serialization hex>
@@ -624,6 +624,11 @@ def hist_step(t, aside, op, rtext):
     path, rest = parse_path(body)
     if k == "F":
         return t, aside, None               # an option format is not part of the tree
+    if k == "P":
+        # a custom serializer is not part of the node's value; set_serializer replaces the userdata, so a
+        # double loses its retained text
+        ppath, _ = parse_path(body)
+        return upd(t, ppath, lambda n: ("d", n[1], None) if isinstance(n, tuple) and n[0] == "d" else n), aside, None
     if k in "ZYG":
         # serializer reset (with or without new opaque userdata): a double loses its retained text
         return upd(t, path, lambda n: ("d", n[1], None) if isinstance(n, tuple) and n[0] == "d" else n), aside, None
@@ -738,6 +743,33 @@ def whole_tree(rng):
     if shape == 1:
         return ("o", [(b"k%d" % i, x) for i, x in enumerate(xs)])
     return [xs[0], ("o", [(b"w", xs[1:])])]
+
+
+# custom serializers: the piece a P operation prints and the JSON value that piece denotes
+def piece_value(mode, n, tag):
+    if mode in "qmc":
+        return tag
+    if mode == "d":
+        return ("i", int("1" + "%0*d" % (n, 7)))
+    if mode == "s":
+        return True
+    raise ValueError(mode)
+
+
+def piece_len(mode, n, tag):
+    return len(tag) + 2 if mode in "qmc" else (1 + max(n, 1) if mode == "d" else n + 4)
+
+
+def pop(path, mode, n, tag):
+    return "P%s=%s,%d,%s" % (pstr(path), mode, n, jvtext.hx(tag))
+
+
+TAGCH = b"abcXYZ019 _-.:%"
+EDGE_LENS = [0, 1, 2, 63, 100, 124, 125, 126, 127, 128, 129, 130, 200, 253, 254, 255, 256, 257, 300]
+
+
+def rtag(rng, n):
+    return bytes(rng.choice(TAGCH) for _ in range(n))
 
 
 TAGS = [b"row 7 of 12", b"%.3f", b"n/a", b"", b"1e5", b"%.0f", b"%d items", b"\x01\xff", b"\"x\"", b"%5.1f%%", None]
@@ -980,6 +1012,42 @@ def gen(rng, tier):
         t = jvtext.gen_tree(rng, depth=rng.choice([0, 1, 2, 3]), size=rng.choice([2, 3, 5]))
         t = fix_strings(rng, fix_doubles(rng, t, 0.35))
         addh(t, gen_history(rng, t, rng.choice([1, 2, 3, 4, 6, 9])))
+    # (d) custom serializers that emit through the public print-buffer API: piece lengths around the 128-byte
+    #     stack buffer of sprintbuf and the growth steps of the buffer, on nodes of every type, nested
+    host = [True, ("i", 5), ("u", 2**63), ("d", jvtext.dbits(1.5), None), d15, b"s", [("i", 1), None], ("o", [(b"k", None), (b"m", [b"x"])])]
+    targets = [[0], [1], [2], [3], [4], [5], [6], [7], [6, 0], [7, 1], [7, 1, 0], []]
+    gi = 0
+    for mode in "qmdsc":
+        for L in EDGE_LENS:
+            if mode in "qm":
+                specs = [(mode, 0, rtag(rng, L))]
+            elif mode == "d":
+                specs = [(mode, max(L, 1), b"")]
+            elif mode == "s":
+                specs = [(mode, L, b"")]
+            else:
+                specs = [(mode, max(L, 1), rtag(rng, n2)) for n2 in (L, 2 * L + 1, 300)]
+            for (m_, n_, tg) in specs:
+                tp = targets[gi % len(targets)]
+                gi += 1
+                addh(host, [pop(tp, m_, n_, tg)], "custom-fixed", [0, 1 + gi % 63, 63 - gi % 7])
+    for i in range(100 if quick else 1500):
+        t = fix_strings(rng, fix_doubles(rng, jvtext.gen_tree(rng, depth=rng.choice([1, 2, 3]), size=rng.choice([2, 3, 5])), 0.2))
+        pre = gen_history(rng, t, rng.choice([0, 0, 1, 2]))
+        pre = [o for o in pre if o[0] not in "RK"]
+        tt = t
+        for o in pre:
+            tt, _, _ = hist_step(tt, None, o, None)
+        ns = [pth for pth, n in nodes(tt) if n is not None]
+        if not ns:                       # the tree is the NULL pointer: nothing can carry a serializer
+            continue
+        ps_ = []
+        for _ in range(rng.randint(1, 3)):
+            m_ = rng.choice("qqmdsc")
+            L = rng.choice(EDGE_LENS) if rng.random() < 0.5 else rng.randint(0, 300)
+            n_ = max(L, 1) if m_ in "dc" else L
+            ps_.append(pop(rng.choice(ns), m_, n_, rtag(rng, L if m_ != "c" else rng.randint(0, 600)) if m_ in "qmc" else b""))
+        addh(t, pre + ps_, "custom")
     # (c) option formats, global / thread-local, set here or in helper threads; the main thread serializes
     w12 = [("d", jvtext.dbits(12.0), None), ("d", jvtext.dbits(1.5), None), ("d", jvtext.dbits(-3.0), None), ("i", 12)]
     for f in FMTS:
@@ -1054,14 +1122,23 @@ def oracle_(line, meta, impl):
         return ("leak", "allocation leaked: " + impl[-40:])
     hist_found = None
     custom_format = False
+    has_pieces = False      # some nodes print through a custom serializer of the driver
+    pieces_rt = True        # ... and json-c's re-parse of the pieces gives back nodes that print the same
     if ops:
         # the history: what the API calls denote, computed here; the driver's dump must agree
         raw = impl.split(" | ")
         pos = 0
         aside = None
         fst = FmtState()
+        pieces = []
         for op in ops:
             rtext = None
+            if op[0] == "P":
+                ppath, prest = parse_path(op[1:])
+                pm, pn, ph = prest[1:].split(",")
+                pieces.append((ppath, pm, int(pn), b"" if ph == "-" else bytes.fromhex(ph)))
+            if op[0] == "R":
+                pieces = []
             if op[0] == "F":
                 want_rc = fst.call(op)
                 if pos >= len(raw) or not raw[pos].startswith("F "):
@@ -1097,6 +1174,14 @@ def oracle_(line, meta, impl):
                               % (raw[pos][6:][:120], jvtext.dump(aside[1])[:120], ";".join(ops)))
             pos += 1
         impl = " | ".join(raw[pos:])
+        # custom serializers: the text must be the containers' text with exactly the known pieces in place, i.e. it
+        # denotes the tree in which those nodes are the values the pieces spell
+        for (ppath, pm, pn, ptag) in pieces:
+            val = piece_value(pm, pn, ptag)
+            tree = upd(tree, ppath, lambda n, val=val: n if n is None else val)
+            has_pieces = True
+            if not (pm in "qmc" or (pm == "d" and pn <= 17)):
+                pieces_rt = False
         custom_format = fst.main_format() is not None and any(d[2] is None for d in tree_doubles(tree))
     steps = parse_obs(impl)
     if steps and steps[-1][0] == "leak":
@@ -1174,12 +1259,17 @@ def oracle_(line, meta, impl):
         if st[0] == "parsefail":
             found.append(("reparse-fails", "flags %d: json-c does not re-parse its own output: %s: %r" % (f, st[3], r["text"][:80])))
             continue
-        if st[5] != r["text"]:
+        if has_pieces and pieces_rt and (f & COLOR):
+            # a piece carries no colour, the string node it re-parses to does: compare without the colour sequences
+            same = strip_color(st[5]) == strip_color(r["text"])
+        else:
+            same = st[5] == r["text"]
+        if not same and (not has_pieces or pieces_rt):
             found.append(("reserialize-differs", "flags %d: re-serialization %r != %r" % (f, st[5][:80], r["text"][:80])))
         has_nan = any(((d[1] >> 52) & 0x7ff) == 0x7ff and (d[1] & ((1 << 52) - 1)) for d in tree_doubles(tree))
-        if st[3] != "1" and not has_nan:
+        if st[3] != "1" and not has_nan and not has_pieces:      # with a custom serializer the text spells the piece, not the node's value
             found.append(("reparse-not-equal", "flags %d: json_object_equal(orig, reparsed) is false; reparsed %s" % (f, st[4][:100])))
-        if r["toks"] is not None:
+        if r["toks"] is not None and (not has_pieces or pieces_rt):
             want = jvtext.dump(expected_reparse(tree, iter([t for k, t in r["toks"] if k == "n"])))
             if st[4] != want:
                 found.append(("reparse-tree", "flags %d: reparsed tree %s, expected %s" % (f, st[4][:100], want[:100])))
